@@ -27,9 +27,9 @@ def issubdtype(a, b):
     if isinstance(b, type) and issubclass(b, generic):
         return issubclass(ca, b)
     if b in (int, builtins.int, S.py_int):
-        return issubclass(ca, S.integer)
+        return issubclass(ca, S.int64)      # numpy: the builtins stand for their default dtype (int64 / float64), not for the abstract kind
     if b in (float, builtins.float, S.py_float):
-        return issubclass(ca, S.floating)
+        return issubclass(ca, S.float64)
     return issubclass(ca, dtype(b).type)
 
 
@@ -65,7 +65,7 @@ def can_cast(a, b, casting="safe"):
     if S.promote_cls(a.type, b.type) is b.type:
         return True
     if casting == "same_kind":
-        kinds = {"b": 0, "i": 1, "u": 1, "f": 2, "c": 3}
+        kinds = {"b": 0, "u": 1, "i": 2, "f": 3, "c": 4}
         if a.kind in kinds and b.kind in kinds:
             return kinds[a.kind] <= kinds[b.kind]
         return False
@@ -77,10 +77,13 @@ def can_cast(a, b, casting="safe"):
 class iinfo:
     def __init__(self, dt):
         d = dtype(dt)
-        if d.kind != "i":
+        if d.kind not in "iu":
             raise ValueError(f"Invalid integer data type '{d.kind}'.")
-        self.bits = int(d.name[3:])
-        self.min, self.max = -(2 ** (self.bits - 1)), 2 ** (self.bits - 1) - 1
+        self.bits = int(d.name.lstrip("uint"))
+        if d.kind == "u":
+            self.min, self.max = 0, 2 ** self.bits - 1
+        else:
+            self.min, self.max = -(2 ** (self.bits - 1)), 2 ** (self.bits - 1) - 1
         self.dtype = d
 
 
